@@ -755,6 +755,12 @@ class ExprMixin:
                 if (t.name, attr) in self.method_rules:
                     yield st, V(T.FUN, BoundBuiltin(base, attr, n.value))
                     return
+                ikey = self.inline_method_key(t.cls, attr)
+                if ikey is not None:
+                    # a method of the real class that has no contract (a helper factored out of a function under
+                    # contract): its body is executed in the caller's context
+                    yield st, V(T.FUN, FunV("inline", key=ikey, self_v=base, name=attr))
+                    return
                 raise Unsupported(f"attribute {t.cls}.{attr} is not declared", n)
             kind, decl, info = f
             if kind == "field":
@@ -791,6 +797,27 @@ class ExprMixin:
             yield st, self.attr_hooks[(t.name, attr)](self, base, st)
             return
         yield st, V(T.FUN, BoundBuiltin(base, attr, n.value))
+
+    def inline_method_key(self, clsname, attr):
+        seen, todo = [], [clsname]
+        while todo:
+            c = todo.pop(0)
+            if c in seen:
+                continue
+            seen.append(c)
+            d = self.classes.get(c)
+            if d is None:
+                continue
+            if d.pyname:
+                cand = f"{d.pyname}.{attr}"
+                try:
+                    node = self.front.find(cand, missing_ok=True)
+                except Exception:
+                    node = None
+                if isinstance(node, ast.FunctionDef):
+                    return cand
+            todo.extend(d.bases)
+        return None
 
     def method_key(self, clsname, attr):
         seen, todo = [], [clsname]
